@@ -134,7 +134,7 @@ pub fn run_c10(out: &mut Out, rng: &mut Rng, tier: Tier) -> String {
     }
     huge_zst(out);
     // beyond the size thresholds at which an implementation might switch algorithms
-    for &(nr, nc) in &LARGE {
+    for &(nr, nc) in LARGE.iter().chain(VERY_LARGE.iter()) {
         for order in ORDERS {
             out.case(&format!("large swaps shape={nr}x{nc} order={}", ord_ch(order)));
             out.nontrivial();
